@@ -1,12 +1,12 @@
 """harnesses - one module per property family; PLAN maps a property to the harnesses that decide it."""
-from . import k01, k04, k11, k12, k13, k14, k16, k17, k18, k19, k20, lfam  # noqa: F401
+from . import k01, k04, k05, k11, k12, k13, k14, k16, k17, k18, k19, k20, lfam  # noqa: F401
 
 PLAN = {
     "C01": ["K01b", "L01"],
     "C02": ["L02"],
     "C03": ["K01b", "K03", "K12a", "L03"],
     "C04": ["K04a", "K04c", "K16", "L04"],
-    "C05": ["L05", "L05b"],
+    "C05": ["K05a", "L05", "L05b"],
     "C06": ["K06", "L06"],
     "C07": ["L07"],
     "C08": ["K14b", "L08"],
